@@ -8,6 +8,8 @@ import importlib
 import json
 import multiprocessing
 import os
+import contextlib
+import io
 import signal
 import sys
 import time
@@ -70,9 +72,18 @@ def guarded_check(law, case):
     if law.name != 'no_retention':
         from .env import reset_shared_errors
         reset_shared_errors()
+    # a quarter of the cases (chosen by the case itself, so a replay makes the same choice) run with the parser's debug output on wherever the check
+    # does not say; the traceback text goes to a buffer
+    from . import env as _env
+    dbg = values.case_digest(case)[0] % 4 == 0 and law.name != 'no_retention'        # (that law measures memory and sets debug itself)
+    _env.DEBUG_DEFAULT[0] = dbg
     signal.setitimer(signal.ITIMER_REAL, law.guard or CASE_GUARD_S)
     try:
-        law.check(case)
+        if dbg:
+            with contextlib.redirect_stderr(io.StringIO()):
+                law.check(case)
+        else:
+            law.check(case)
     finally:
         signal.setitimer(signal.ITIMER_REAL, 0)
 
